@@ -57,7 +57,7 @@ theorem count_replicate_ne (n : Nat) (t u : Tid) (l : List Tid) (hne : u ≠ t) 
 
 /-- barrier-mode owner of the lane -/
 def holdsB : Pc → Bool
-  | .run _ a | .running _ a => a.isBar
+  | .run _ a | .running _ a | .runningA _ a _ => a.isBar
   | .sFastUnlock | .bc1 _ _ | .bc2 _ _ _
   | .dbwPop _ _ | .dbwRmw _ _ _ | .dnb0 _ _
   | .dInvoke .bar | .dLoopHead .bar | .dDropBarrier | .dLoopNext .bar | .dUnlock .bar _ => true
@@ -73,6 +73,7 @@ def holdsU : Pc → Bool
 /-- width units the pc says the thread holds -/
 def unitsOf : Pc → Nat
   | .run _ a | .running _ a => if a.isBar then 0 else 1
+  | .runningA _ a k => (if a.isBar then 0 else 1) + k
   | .nbc _ _ => 1
   | .dInvoke (.units n) | .dLoopHead (.units n) | .dUpgrade n
   | .dLoopNext (.units n) | .dUnlock (.units n) _ => n
@@ -89,11 +90,11 @@ theorem holdsU_of_isDnb {pc : Pc} (h : isDnb pc = true) : holdsU pc = true := by
   cases pc <;> simp_all [isDnb, holdsU]
 
 def isRunningB : Pc → Bool
-  | .running _ a => a.isBar
+  | .running _ a | .runningA _ a _ => a.isBar
   | _ => false
 
 def isRunningN : Pc → Bool
-  | .running _ a => !a.isBar
+  | .running _ a | .runningA _ a _ => !a.isBar
   | _ => false
 
 def LockedB (d : Dq) (t : Tid) : Prop := d.O = some t ∧ d.B = true
